@@ -1626,4 +1626,41 @@ VARIANTS: List[Variant] = [
         "                        matched_slice=slice(start_idx, max_idx),\n",
         "R02e", "Sequence.match",
     ),
+    # R02f re-spellings of parse_rendered
+    Variant(
+        "quiet-r02f-variant-built-into-local", LINTER,
+        '            parsed_variants.append(\n                ParsedVariant(\n                    variant,\n                    parsed,\n                    lex_errors,\n                    parse_errors,\n                )\n            )\n',
+        "            parsed_variant = ParsedVariant(\n                variant,\n                parsed,\n                lex_errors,\n                parse_errors,\n            )\n            parsed_variants.append(parsed_variant)\n",
+        "QUIET", None, "the ParsedVariant is built into a local, then appended",
+    ),
+    Variant(
+        "quiet-r02f-parse-as-conditional-expression", LINTER,
+        '            if tokens:\n                parsed, parse_errors = cls._parse_tokens(\n                    tokens,\n                    rendered.config,\n                    fname=rendered.fname,\n                    parse_statistics=parse_statistics,\n                )\n            else:  # pragma: no cover\n                parsed = None\n                parse_errors = []\n',
+        "            parsed, parse_errors = (\n                cls._parse_tokens(\n                    tokens,\n                    rendered.config,\n                    fname=rendered.fname,\n                    parse_statistics=parse_statistics,\n                )\n                if tokens\n                else (None, [])\n            )\n",
+        "QUIET", None, "if/else spelled as a conditional expression",
+    ),
+    Variant(
+        "quiet-r02f-defaults-before-the-test", LINTER,
+        '            if tokens:\n                parsed, parse_errors = cls._parse_tokens(\n                    tokens,\n                    rendered.config,\n                    fname=rendered.fname,\n                    parse_statistics=parse_statistics,\n                )\n            else:  # pragma: no cover\n                parsed = None\n                parse_errors = []\n',
+        "            parsed = None\n            parse_errors = []\n            if tokens:\n                parsed, parse_errors = cls._parse_tokens(\n                    tokens,\n                    rendered.config,\n                    fname=rendered.fname,\n                    parse_statistics=parse_statistics,\n                )\n",
+        "QUIET", None, "the empty-file defaults are set before the test instead of in an else",
+    ),
+    Variant(
+        "quiet-r02f-loop-variant-renamed-lex-by-keyword", LINTER,
+        "        for idx, variant in enumerate(rendered.templated_variants):\n            t0 = time.monotonic()\n            linter_logger.info(\"Parse Rendered. Lexing Variant %s\", idx)\n            tokens, lex_errors = cls._lex_templated_file(variant, rendered.config)\n",
+        "        for idx, templated_variant in enumerate(rendered.templated_variants):\n            variant = templated_variant\n            t0 = time.monotonic()\n            linter_logger.info(\"Parse Rendered. Lexing Variant %s\", idx)\n            tokens, lex_errors = cls._lex_templated_file(\n                templated_file=templated_variant, config=rendered.config\n            )\n",
+        "QUIET", None, "loop variable renamed, lexed under the loop name and stored under an alias of it",
+    ),
+    Variant(
+        "quiet-r02f-append-as-augmented-assignment", LINTER,
+        '            parsed_variants.append(\n                ParsedVariant(\n                    variant,\n                    parsed,\n                    lex_errors,\n                    parse_errors,\n                )\n            )\n',
+        "            parsed_variants += [\n                ParsedVariant(\n                    variant,\n                    parsed,\n                    lex_errors,\n                    parse_errors,\n                )\n            ]\n",
+        "QUIET", None, "append spelled as += [one element]",
+    ),
+    Variant(
+        "quiet-r02f-result-list-positional-through-alias", LINTER,
+        "        return ParsedString(\n            parsed_variants=parsed_variants,\n",
+        "        all_variants = parsed_variants\n        return ParsedString(\n            parsed_variants=all_variants,\n",
+        "QUIET", None, "the list handed to ParsedString through one more local",
+    ),
 ]
